@@ -163,3 +163,21 @@ fn c04_b_min_size64() {
     kani::cover!(v < -(1i64 << 40));
     std::mem::forget(x);
 }
+
+// ---------------------------------------------------------------- C04-c sized values against the directive width
+use crate::steps::*;
+step! { int;
+    #[kani::unwind(2)]
+    fn c04_c_data_sized_value() {
+        // #dN with a sized value (e.g. a hex literal of S bits): accepted iff S <= N, stored = the value's low N bits
+        let n: usize = kani::any(); kani::assume(n >= 1 && n <= 12);
+        let s: usize = kani::any(); kani::assume(s >= 1 && s <= 16);
+        let v: u16 = kani::any(); kani::assume((v as u32) < (1u32 << s));
+        let prev: i16 = kani::any(); kani::assume(prev >= 0 && (prev as i64) < (1i64 << n));
+        pre_int(v as i64, Some(s));
+        let (res, _, stored) = data_element_step(n, v as i64, Some(s), 0, false, true, false, true, prev as i64);
+        kani::cover!(res && s == n, "value exactly as wide as the directive");
+        kani::cover!(res && s < n && stored == v as u64, "narrower sized value zero-extended");
+        kani::cover!(!res, "not resolved");
+    }
+}
